@@ -3,5 +3,7 @@ CONSTANTS Cap = 3
   Flush = 100
   MaxIndex = 2000
   MaxOps = 400
+  MaxFails = 3
+  Bursts = {}
   ResetTargets = {0, 7, 150, 1000}
 CHECK_DEADLOCK FALSE
